@@ -140,7 +140,7 @@ def _run_base(ctx):
                          ('delegates to the built-in renderer with the same three texts (its (text, status) pairs are checked above)' if deleg else 'early return is not (input, 0)'), r)
                 continue
             stores = [s for v, k, s in d.get(sv, [])] if sv else []
-            ok = isinstance(r.value, ast.Tuple) and dotted(r.value.elts[1]) == sv and len(stores) == 1
+            ok = (isinstance(r.value, ast.Tuple) and dotted(r.value.elts[1]) == sv and len(stores) == 1) or r.value is ext[0]
             ctx.inst('R07.2', '%s:%s' % (PP, name), repo.norm(r), ok,
                      'the tool\'s exit status is returned unmodified' if ok else
                      'the tool status is overwritten or replaced before it is returned', r)
